@@ -40,6 +40,8 @@ def program_asts(max_random=None, small=None, rnd_items=None, rnd_nesting=None):
     # pairs (thorough: triples) of depth-varying tokens, with and without a separator in between
     for ast in gen.enum_depth_pairs(triples=(small == "thorough")):
         add(ast)
+    for ast in gen.enum_flag_family():
+        add(ast)
     # seeded random derivations
     if max_random is None:
         max_random = 2000 if t == "quick" else 30000
